@@ -343,6 +343,151 @@ def h_rows_concrete(mods, mf0, mf1, isflags):
     return h
 
 
+class SymIndexBox(real_np.ndarray):
+    """object image whose reads at a symbolic position return a fresh symbol (the component rows look up bkg/rms at the
+    rounded fitted position), concrete reads and slices behave as numpy"""
+    _n = [0]
+
+    def __getitem__(self, key):
+        ks = key if isinstance(key, tuple) else (key,)
+        if any(isinstance(k, SN) for k in ks):
+            SymIndexBox._n[0] += 1
+            return real('img_at_%d' % SymIndexBox._n[0])
+        return real_np.ndarray.__getitem__(self, key)
+
+
+def h_islandrow(mods, shape, blank):
+    """the real result_to_components with doislandflux=True: the island row against the island's own pixels"""
+    def h(c):
+        S = r2c.setup(c, mods, ncomp=2)
+        sf = S['sf']
+        sf.fix_shape = lambda source: None
+        sf.pa_limit = lambda pa: pa
+        R, C = shape
+        idata = real_np.empty(shape, dtype=object)
+        rms = real_np.empty((64, 64), dtype=object)
+        rms[...] = 1
+        bkg = real_np.zeros((64, 64), dtype=object)
+        xmin, ymin = 10, 20
+        oc = real('outerclip')
+        c.assume(oc.e > 0)
+        for i in range(R):
+            for j in range(C):
+                idata[i, j] = float('nan') if (i, j) in blank else real('px_%d_%d' % (i, j))
+                rms[xmin + i, ymin + j] = real('rms_%d_%d' % (i, j))
+                c.assume(rms[xmin + i, ymin + j].e > 0)
+        gd = S['finder'].global_data
+        SymIndexBox._n[0] = 0
+        gd.rmsimg, gd.bkgimg = rms.view(SymIndexBox), bkg.view(SymIndexBox)
+
+        class MS:
+            def __init__(self, data):
+                self.perimeter = []
+        sf.MarchingSquares = MS
+        sf.erf = lambda x: real('erf_value')
+        S['helper'].get_beamarea_deg2 = lambda ra, dec: real('beam_deg2')
+        # the geometry is not the subject here (C16 / K-rows): positions, shapes and distances are arbitrary values
+        cnt = [0]
+
+        def fresh(lo=None, hi=None):
+            cnt[0] += 1
+            v = real('geo%d' % cnt[0])
+            if lo is not None:
+                c.assume(v.e >= lo)
+            if hi is not None:
+                c.assume(v.e <= hi)
+            return v
+        S['helper'].pix2sky = lambda p: [fresh(0, 359), fresh(-90, 90)]
+        S['helper'].pix2sky_ellipse = lambda pos, sx, sy, th: (fresh(0, 359), fresh(-90, 90), fresh(0), fresh(0), fresh(-90, 90))
+        S['helper'].get_beamarea_pix = lambda ra, dec: fresh(1)
+        sf.gcd = lambda *a: fresh(0)
+        sf.bear = lambda *a: fresh(-180, 180)
+        isl = mods['models'].IslandFittingData(7, i=idata, scalars=(real('innerclip'), oc, None), offsets=(xmin, xmin + R, ymin, ymin + C), doislandflux=True)
+        # an island handed over by find_islands has at least one pixel above the flood clip
+        pre = []
+        for i in range(R):
+            for j in range(C):
+                v = idata[i, j]
+                if isinstance(v, SN):
+                    pre.append(z3.If(v.e >= 0, v.e, -v.e) - oc.e * rms[xmin + i, ymin + j].e > 0)
+        c.assume(z3.Or(pre))
+        try:
+            srcs = S['finder'].result_to_components(r2c.Res(), S['model'], isl, 0)
+        except (core.Unsupported, core.HarnessError, core.Cut, core.Infeasible):
+            raise
+        except Exception as e:
+            c.oblige('island row:result_to_components completes', z3.BoolVal(False), info=repr(e)[:200])
+            return dict()
+        IslandSource = mods['models'].IslandSource
+        isls = [s_ for s_ in srcs if isinstance(s_, IslandSource)]
+        comps = [s_ for s_ in srcs if not isinstance(s_, IslandSource)]
+        tag = 'island row[%dx%d%s]' % (R, C, ', one blank' if blank else '')
+        c.oblige(tag + ':exactly one island row after the component rows', z3.BoolVal(len(isls) == 1 and len(comps) == 2 and srcs[-1] is isls[0]))
+        if len(isls) != 1:
+            return dict()
+        I_ = isls[0]
+        L = core.lift
+        sel = {}
+        for i in range(R):
+            for j in range(C):
+                v = idata[i, j]
+                if isinstance(v, SN):
+                    a_ = z3.If(v.e >= 0, v.e, -v.e)
+                    sel[i, j] = a_ - oc.e * rms[xmin + i, ymin + j].e > 0
+        npx = z3.Sum([z3.If(b, 1, 0) for b in sel.values()])
+        c.oblige(tag + ':island number and component count', z3.BoolVal(I_.island == 7 and I_.components == 2))
+        c.oblige(tag + ':pixels == number of island pixels above the flood clip', L(I_.pixels) == npx)
+        c.oblige(tag + ':extent and widths are those of the island box', z3.BoolVal(list(I_.extent) == [xmin, xmin + R, ymin, ymin + C] and (I_.x_width, I_.y_width) == (R, C)))
+        pk = I_.peak_flux
+        if isinstance(pk, SN):
+            anysel = z3.Or(list(sel.values()))
+            allneg = z3.And([z3.Implies(b, idata[k].e < 0) for k, b in sel.items()])
+            c.oblige(tag + ':peak_flux is the extreme selected pixel (max, or min when every selected pixel is negative)',
+                     z3.And([z3.Implies(b, z3.If(allneg, pk.e <= idata[k].e, pk.e >= idata[k].e)) for k, b in sel.items()] + [z3.Or([z3.And(b, pk.e == idata[k].e) for k, b in sel.items()])]), assume=[anysel])
+        return dict(peak_symbolic=isinstance(pk, SN))
+    return h
+
+
+def islandrow_oracle():
+    """real blind run with island rows on a small noise-free field: every island row against an independent flood fill"""
+    d = tempfile.mkdtemp(prefix='c03i_', dir='/var/tmp')
+    try:
+        sfm = loader.real('source_finder')
+        models = loader.real('models')
+        from astropy.io import fits
+        fn, truth, hdr = make_field(d, 9, seed=3)
+        img = fits.getdata(fn)
+        f = sfm.SourceFinder(log=logging.getLogger('c03'))
+        out = f.find_sources_in_image(fn, rms=0.05, bkg=0.0, cores=1, innerclip=20, outerclip=15, doislandflux=True)
+        isls = [s_ for s_ in out if isinstance(s_, models.IslandSource)]
+        comps = [s_ for s_ in out if isinstance(s_, models.ComponentSource)]
+        if len(isls) != 9:
+            return True, 'island-row-count', '%d island rows for 9 isolated sources' % len(isls)
+        for I_ in isls:
+            mine = [c_ for c_ in comps if c_.island == I_.island]
+            if I_.components != len(mine):
+                return True, 'island-components', 'island %d row says %d components, catalogue has %d' % (I_.island, I_.components, len(mine))
+            x0, x1, y0, y1 = [int(v) for v in I_.extent]
+            box = img[x0:x1, y0:y1]
+            sel = abs(box) > 15 * 0.05
+            if int(I_.pixels) != int(sel.sum()):
+                return True, 'island-pixels', 'island %d row says %d pixels, %d pixels of its box exceed the flood clip' % (I_.island, I_.pixels, int(sel.sum()))
+            if abs(I_.peak_flux - box[sel].max()) > 1e-9 * abs(box[sel].max()):
+                return True, 'island-peak', 'island %d row peak %r, brightest pixel %r' % (I_.island, I_.peak_flux, box[sel].max())
+            if (I_.x_width, I_.y_width) != box.shape:
+                return True, 'island-extent', 'island %d widths %s for a box of shape %s' % (I_.island, (I_.x_width, I_.y_width), box.shape)
+            # the flood-fill bounding box of the source equals the extent
+            rr, cc = real_np.where(abs(img) > 15 * 0.05)
+            near = [(r_, c_) for r_, c_ in zip(rr, cc) if x0 - 3 <= r_ < x1 + 3 and y0 - 3 <= c_ < y1 + 3]
+            if near and (min(r_ for r_, _ in near), max(r_ for r_, _ in near) + 1, min(c_ for _, c_ in near), max(c_ for _, c_ in near) + 1) != (x0, x1, y0, y1):
+                return True, 'island-extent', 'island %d extent %s but its pixels span rows %d..%d cols %d..%d' % (I_.island, I_.extent, min(r_ for r_, _ in near), max(r_ for r_, _ in near) + 1, min(c_ for _, c_ in near), max(c_ for _, c_ in near) + 1)
+        return False, None, None
+    except Exception as e:
+        return True, 'raises-%s' % type(e).__name__, repr(e)[:300]
+    finally:
+        shutil.rmtree(d, ignore_errors=True)
+
+
 def rows_oracle():
     """the real result_to_components on a real two-component lmfit model: numbering, distinct uuids, integer flag words,
     sexagesimal strings that parse back to the decimal position"""
@@ -580,6 +725,27 @@ def run(rep):
     if bad:
         rep.finding('C03/K-rows/%s' % cls, dict(kind='rows'), detail)
     rep.end_kernel()
+    rep.kernel('K-islandrow', functions=[F + ':SourceFinder.result_to_components'], bounds='islands 1x2, 2x2 (thorough: 2x3 with one blank pixel) of symbolic pixels of any sign, symbolic noise and flood clip, two components',
+               stubs=['as K-rows; MarchingSquares -> empty contour, erf -> symbol'], outside=['contour, angular size, area, eta of the island row'])
+    idone = False
+    ishapes = [((1, 2), ()), ((2, 2), ())] + ([((2, 3), ((0, 2),))] if thorough else [])
+    for sh, bl in ishapes:
+        st, res = explore(h_islandrow(mods, sh, bl), workers=16, wall_s=(900 if thorough else 240))
+        rep.stats(st)
+        for r in res:
+            for ob in r['obligations']:
+                rep.count(ob['result'], ob['name'])
+                if ob['result'] == 'sat' and not idone:
+                    bad, cls, detail = islandrow_oracle()
+                    if rep.finding('C03/K-islandrow/%s' % (cls or ob['name'].split(':')[-1]), dict(kind='islandrow'), detail or ob['name'], reproduced=bad) != 'not-reproduced':
+                        idone = True
+        if res:
+            rep.sample(dict(kernel='K-islandrow', paths=len(res), obligations=[(o['name'].split(':')[-1], o['result']) for o in res[0]['obligations']][:8]))
+    bad, cls, detail = islandrow_oracle()
+    rep.validated_runs(1)
+    if bad:
+        rep.finding('C03/K-islandrow/%s' % cls, dict(kind='islandrow'), detail)
+    rep.end_kernel()
     # the strings of every row: the real dec2dms / dec2hms (the kernel of C17, run here on the same code)
     from checks import C17
     C17.run_sexa(rep, C17.sym_at(), pid='C03')
@@ -596,7 +762,7 @@ def run(rep):
     if bad:
         rep.finding('C03/K-errors/%s' % cls, dict(kind='errors'), detail, kernel='K-errors')
     rep.end_kernel()
-    rep.not_decided += ['re-running on identical input yields an identical catalogue (checked on one field only)', 'island rows agree with component rows and detected pixels (island mode)',
+    rep.not_decided += ['re-running on identical input yields an identical catalogue (checked on one field only)', 'island rows: contour, angular size, area (K-islandrow decides count, pixels, peak, extent)',
                         'completion on every valid image (flagging rather than aborting)', 'sexagesimal strings: dec2dms / dec2hms decided here by the C17 kernel; that every writer uses them is not decided']
 
 
@@ -608,6 +774,8 @@ def replay(w):
         bad, cls, detail = normalise_oracle(wit.get('values') or {})
     elif wit.get('kind') == 'rows':
         bad, cls, detail = rows_oracle()
+    elif wit.get('kind') == 'islandrow':
+        bad, cls, detail = islandrow_oracle()
     elif wit.get('kind') in ('dms', 'hms'):
         from checks import C17
         bad, cls, detail = C17.oracle_sexa(wit['kind'], float(wit['x']))
